@@ -307,7 +307,9 @@ class KittyImage(GraphicsImage):
             # terminals should support it and most terminals treat queries as FIFO
             response = query_terminal(
                 ctlseqs.KITTY_SUPPORT_QUERY_b + ctlseqs.DA1_b,
-                lambda s: not s.endswith(b"c"),
+                # The response to the first query might contain a "c" (e.g. an error
+                # message); can't stop reading at just any "c"
+                lambda s: not re.search(rb"\x1b\[\?[0-9;]*c\Z", s),
             )
 
             # Not supported if it doesn't respond to either query
